@@ -22,7 +22,7 @@ Definition mon_step (m : mstate) (a : event * sfail) : option mstate :=
   match m, e with
   | MConn _, EAccept _ _ => Some (outcome k m (MOpen false))
   | MConn t, EClose _ _ => Some (outcome k (MConn true) MClosed)
-  | MOpen _, EText _ | MOpen _, EBytes _ => Some (outcome k m m)
+  | MOpen _, EText _ _ | MOpen _, EBytes _ _ => Some (outcome k m m)
   | MOpen t, EClose _ _ => Some (outcome k (MOpen true) MClosed)
   | _, _ => None
   end.
@@ -46,13 +46,20 @@ Definition session_ok (tr : list (event * sfail)) (e : ending) (disc_handed : bo
     || match m with MClosed | MLost | MConn true | MOpen true => true | _ => false end
   end.
 
-(* supported features only *)
+(* supported features only, and every payload field has the type the ASGI spec demands and
+   does not alias a buffer the application can still change: 'text' is a str, 'bytes' is
+   exactly bytes whose content is the same when send() is called and when the server reads it *)
+Definition event_ok (c : cfg) (e : event) : bool :=
+  match e with
+  | EAccept _ true => hdrs_ok c
+  | EClose _ true => reason_ok c
+  | EText _ k => strish k
+  | EBytes _ k => match k with KExact => true | _ => false end
+  | _ => true
+  end.
+
 Definition features_ok (c : cfg) (tr : list (event * sfail)) : bool :=
-  forallb (fun a => match fst a with
-                    | EAccept _ true => hdrs_ok c
-                    | EClose _ true => reason_ok c
-                    | _ => true
-                    end) tr.
+  forallb (fun a => event_ok c (fst a)) tr.
 
 (* ---- 2. (public state, operation) -> documented error *)
 Inductive pub := PHandshake | PReady | PClosed.
@@ -81,6 +88,15 @@ Definition is_disc (r : result) : bool := match r with Raise (XDisc _) => true |
 Definition is_internal (r : result) : bool :=
   match r with Raise XAssert => true | _ => false end.
 
+(* the payload is not of the type the operation takes (send_text: a str; send_data: bytes,
+   bytearray or memoryview) *)
+Definition payload_bad (o : op) : bool :=
+  match o with
+  | OSendText (PGood _ k) => negb (strish k)
+  | OSendText PBad | OSendData PBad => true
+  | _ => false
+  end.
+
 (* true = the result is what the documentation promises for this (state, operation) *)
 Definition misuse_ok (c : cfg) (p : pub) (o : op) (r : result) : bool :=
   negb (is_internal r) &&
@@ -100,8 +116,8 @@ Definition misuse_ok (c : cfg) (p : pub) (o : op) (r : result) : bool :=
   | OSendText p' | OSendData p' =>
     match p with
     | PHandshake => is_raise r XNotAllowed
-    | PReady => match p' with PBad => is_raise r XType | PGood _ => true end
-    | PClosed => match p' with PBad => is_raise r XType || is_disc r | PGood _ => is_disc r end
+    | PReady => if payload_bad o then is_raise r XType else true
+    | PClosed => if payload_bad o then is_raise r XType || is_disc r else is_disc r
     end
   | OSendMedia _ _ =>
     match p with
